@@ -3,12 +3,14 @@ package main
 import (
 	"fmt"
 	"sort"
+	"strconv"
 	"strings"
 
 	"github.com/mmcloughlin/avo/attr"
 	"github.com/mmcloughlin/avo/ir"
 	"github.com/mmcloughlin/avo/operand"
 	"github.com/mmcloughlin/avo/pass"
+	"github.com/mmcloughlin/avo/printer"
 	"github.com/mmcloughlin/avo/reg"
 	"github.com/mmcloughlin/avo/x86"
 )
@@ -527,4 +529,65 @@ func multiFunctionFiles(o *Out, progs []*Prog, keyPrefix string, limit int) {
 		}
 	}
 	o.Plan.Stats["refused_functions_placed_in_files"] = n
+}
+
+// bpPrintedFrames: what the assembler will see.  Each program is compiled by the real pass.Compile and
+// printed; if the compiled code writes the base pointer (read off the instructions' own output lists) the
+// TEXT line must declare a non-empty frame, otherwise the assembler neither saves nor restores it.
+func bpPrintedFrames(o *Out, progs []*Prog, limit int) {
+	n := 0
+	for _, p := range progs {
+		if n >= limit {
+			break
+		}
+		if !(p.Tags["explicit-bp"] || p.Tags["pressure15"]) {
+			continue
+		}
+		fn := p.Function()
+		f := ir.NewFile()
+		f.AddSection(fn)
+		failed := false
+		func() {
+			defer func() {
+				if recover() != nil {
+					failed = true
+				}
+			}()
+			if err := pass.Compile.Execute(f); err != nil {
+				failed = true
+			}
+		}()
+		if failed {
+			continue
+		}
+		clob := false
+		for _, nd := range fn.Nodes {
+			if in, isI := nd.(*ir.Instruction); isI {
+				for _, op := range in.Outputs {
+					if r, isR := op.(reg.Register); isR && r.ID() == reg.RBP.ID() {
+						clob = true
+					}
+				}
+			}
+		}
+		if !clob {
+			continue
+		}
+		out, err := printer.NewGoAsm(printer.Config{Name: "avo", Pkg: "p"}).Print(f)
+		if err != nil {
+			continue
+		}
+		n++
+		frame := int64(-1)
+		for _, ln := range strings.Split(string(out), "\n") {
+			if m := textFrameRe.FindStringSubmatch(ln); m != nil {
+				frame, _ = strconv.ParseInt(m[1], 10, 64)
+			}
+		}
+		idx := o.AddCase(Case{Key: "bp:printed-frame", Desc: fmt.Sprintf("compiled and printed, frame $%d: %s", frame, p.Text()), Input: map[string]any{"nodes": p.Text()}, Nontrivial: true})
+		if frame <= 0 {
+			o.Plan.GoViolations = append(o.Plan.GoViolations, GoViolation{Key: "bp:printed-frame-empty", Desc: fmt.Sprintf("case %d: the compiled function writes the base pointer but its TEXT line declares frame $%d: the assembler will not save it: %s", idx, frame, p.Text()), Replay: map[string]any{"nodes": p.Text(), "text": string(out)}})
+		}
+	}
+	o.Plan.Stats["bp_functions_printed"] = n
 }
